@@ -4,6 +4,7 @@ import (
 	"fmt"
 	"runtime/debug"
 	"sort"
+	"strings"
 	"sync"
 	"time"
 
@@ -98,6 +99,16 @@ func (s *sig) ExitSignal() bool {
 	return s.k > 0 && s.n >= s.k
 }
 
+// the same signal behind Go values of other kinds: a host may implement Signal with a function
+// type or a struct passed by value (the counter is shared through the pointer inside)
+type sigFunc func() bool
+
+func (f sigFunc) ExitSignal() bool { return f() }
+
+type sigValue struct{ s *sig }
+
+func (v sigValue) ExitSignal() bool { return v.s.ExitSignal() }
+
 // ---- points ----
 
 type fieldSpec struct {
@@ -143,7 +154,13 @@ func (ps pointSpec) json() map[string]any {
 			foreign = append(foreign, []string{hx(f.K), hx(f.V)})
 		}
 	}
-	return map[string]any{"m": hx(ps.Meas), "tags": tags, "fields": fs, "time": ps.Time, "foreign": foreign}
+	gotypes := []any{}
+	for _, f := range ps.Fields {
+		if strings.HasPrefix(f.T, "go-") {
+			gotypes = append(gotypes, []string{hx(f.K), f.T, f.V})
+		}
+	}
+	return map[string]any{"m": hx(ps.Meas), "tags": tags, "fields": fs, "time": ps.Time, "foreign": foreign, "gotypes": gotypes}
 }
 
 func fieldVal(f fieldSpec) any {
@@ -162,12 +179,49 @@ func fieldVal(f fieldSpec) any {
 		return bitsFloat(u)
 	case "bytes":
 		return []byte(f.V)
+	// fields of Go's other numeric types: InitPt converts them to the language's int / float
+	case "go-int32":
+		var i int64
+		fmt.Sscan(f.V, &i)
+		return int32(i)
+	case "go-int":
+		var i int64
+		fmt.Sscan(f.V, &i)
+		return int(i)
+	case "go-uint8":
+		var i uint64
+		fmt.Sscan(f.V, &i)
+		return uint8(i)
+	case "go-uint64":
+		var i uint64
+		fmt.Sscan(f.V, &i)
+		return i
+	case "go-float32":
+		var x float64
+		fmt.Sscan(f.V, &x)
+		return float32(x)
 	default:
 		return f.V
 	}
 }
 
-func renderField(f fieldSpec) string { return render(fieldVal(f)) }
+// the value as the language sees it (the model's input): Go's other numeric types become int64 / float64
+func renderField(f fieldSpec) string {
+	switch v := fieldVal(f).(type) {
+	case int32:
+		return render(int64(v))
+	case int:
+		return render(int64(v))
+	case uint8:
+		return render(int64(v))
+	case uint64:
+		return render(int64(v))
+	case float32:
+		return render(float64(v))
+	default:
+		return render(v)
+	}
+}
 
 func (ps pointSpec) build() *input.Point {
 	tags := map[string]string{}
@@ -232,6 +286,7 @@ type runCase struct {
 	Point   pointSpec
 	SigK    int  // 0 = never fires
 	HasSig  bool // false = nil signal
+	Recheck bool `json:",omitempty"` // validate every loaded script once more before running (validation must not undo the linking)
 	Held    int  `json:",omitempty"` // in a history: 1-based index of an earlier operation whose loaded scripts are run again (0 = load now)
 }
 
@@ -257,7 +312,7 @@ func caseHeader(rc runCase) map[string]any {
 		in = append(in, map[string]any{"name": hx(s.Name), "src": hx(s.Src)})
 	}
 	return map[string]any{"k": "run", "scripts": in, "entry": hx(rc.Entry), "point": rc.Point.json(),
-		"sigk": rc.SigK, "hassig": rc.HasSig, "held": rc.Held}
+		"sigk": rc.SigK, "hassig": rc.HasSig, "held": rc.Held, "recheck": rc.Recheck}
 }
 
 func runV1Direct(rc runCase) map[string]any {
@@ -297,6 +352,16 @@ func runV1With(rc runCase, held *loadedSet) (map[string]any, *loadedSet) {
 			loadErrs[hx(name)] = le
 		}
 	}
+	if rc.Recheck && held == nil {
+		_, check := fnTables()
+		for name, sc := range oks {
+			if cerr := sc.Check(check); cerr != nil {
+				le := dumpErr(cerr)
+				le["stage"] = "checked-again"
+				loadErrs[hx(name)] = le
+			}
+		}
+	}
 	set := &loadedSet{oks: oks, loadErrs: loadErrs}
 	res["loaderrs"] = loadErrs
 	d := newDumper()
@@ -333,6 +398,13 @@ func runV1With(rc runCase, held *loadedSet) (map[string]any, *loadedSet) {
 		if rc.HasSig {
 			sgp = &sig{k: rc.SigK}
 			sg = sgp
+			// (which Go kind carries the signal is no business of the script: it rotates with the case)
+			switch (len(rc.Entry) + len(rc.Scripts[0].Src) + rc.SigK) % 3 {
+			case 1:
+				sg = sigFunc(sgp.ExitSignal)
+			case 2:
+				sg = sigValue{sgp}
+			}
 		}
 		err := s.Run(pt, sg)
 		if err != nil {
